@@ -367,6 +367,22 @@ static const char* numeric_range_convertible_types()
     return "cihTF";
 }
 
+//! whether the step @p delta from @p from to @p to did not wrap around and
+//! the span from @p first to @p to still fits into the type (otherwise the
+//! run can not be written as "first [second] ... last")
+static int range_step_fits(const rtosc_arg_val_t* first,
+                           const rtosc_arg_val_t* from,
+                           const rtosc_arg_val_t* to,
+                           const rtosc_arg_val_t* delta)
+{
+    rtosc_arg_val_t zero, span;
+    rtosc_arg_val_null(&zero, delta->type);
+    int dir = rtosc_arg_vals_cmp_single(delta, &zero, NULL);
+    rtosc_arg_val_sub(to, first, &span);
+    return rtosc_arg_vals_cmp_single(to, from, NULL) == dir
+        && rtosc_arg_vals_cmp_single(&span, &zero, NULL) == dir;
+}
+
 //! tries to convert all args starting at @a arg into
 //! an arg val range - if possible
 //! @param arg_out array, output which must have the size of arg or more;
@@ -399,6 +415,8 @@ static int32_t rtosc_convert_to_range(const rtosc_arg_val_t* const arg,
     else if(strchr(numeric_range_convertible_types(), arg->type)) {
         has_delta = 1;
         rtosc_arg_val_sub(arg+1, arg, &delta);
+        if(!range_step_fits(arg, arg, arg+1, &delta))
+            return 0;
     }
     else return 0;
 
@@ -414,7 +432,9 @@ static int32_t rtosc_convert_to_range(const rtosc_arg_val_t* const arg,
 
             if(next >= size || !rtosc_arg_vals_eq_single(has_delta ? &added
                                                                    : arg,
-                                                         arg+next, NULL))
+                                                         arg+next, NULL)
+               || (has_delta &&
+                   !range_step_fits(arg, arg+skipped, &added, &delta)))
                 go_on = false;
         }
     }
